@@ -403,6 +403,8 @@ class ProtocolContext:
             try:  # the wrapped function (actual Tx.write)
                 await self._send_fnc(cmd)
             except exc.TransportError as err:
+                if isinstance(self._state, Inactive):  # connection_lost() got there first
+                    return  # (it has failed the command): stay Inactive
                 self.set_state(IsInIdle, exception=err)
 
         # TODO: check what happens when exception here - why does it hang?
